@@ -12,8 +12,9 @@ import traceback
 from typing import Any, Callable, Dict, Iterable, List, Optional
 
 VERIF = os.path.dirname(os.path.dirname(os.path.abspath(__file__)))
-EVIDENCE_DIR = os.path.join(VERIF, "evidence")
-REPLAY_DIR = os.path.join(VERIF, "replays")
+# overridable so that evaluation runs against deliberately broken trees do not clobber the real evidence
+EVIDENCE_DIR = os.environ.get("DSMC_EVIDENCE_DIR") or os.path.join(VERIF, "evidence")
+REPLAY_DIR = os.environ.get("DSMC_REPLAY_DIR") or os.path.join(VERIF, "replays")
 KNOWN = os.path.join(VERIF, "known_findings.jsonl")
 
 from .env import REAL_TIME as _REAL_TIME  # captured before env.install() patches the time module
